@@ -52,6 +52,8 @@ PROPS = {
     'C06': dict(modules=['Hagall.Props.C06'], profiles=['join', 'module', 'comp', 'mixed'], n=(240, 4000),
                 focus={'join', 'entityAdd', 'compAdd', 'action', 'assetAdd'},
                 topics=slice_of(['disconnect', 'join', 'receipt'], kinds=['outcome'])),
+    'C07': dict(modules=['Hagall.Props.C07'], profiles=['join', 'mixed'], n=(240, 4000), focus={'join'},
+                topics=slice_of(['join', 'disconnect'], kinds=['state', 'gauge'])),
     'C12': dict(modules=['Hagall.Props.C12'], profiles=['comp', 'mixed'], n=(240, 4000), focus=set(COMP) | {'entityDelete'},
                 topics=slice_of(COMP + ['entityDelete'])),
     'C13': dict(modules=['Hagall.Props.C13'], profiles=['comp', 'mixed'], n=(240, 4000),
